@@ -76,7 +76,26 @@ class DeepExc(UserExc):
     """An exception subclass two levels below Exception."""
 
 
+class UnhashableExc(Exception):
+    """An exception compared by value (defining __eq__ removes __hash__): the
+    error types of several validation / RPC libraries are like this."""
+
+    def __eq__(self, other):
+        return isinstance(other, UnhashableExc) and self.args == other.args
+
+
+class EqRaisesExc(Exception):
+    """An exception whose comparison and hash are not usable at all."""
+
+    def __eq__(self, other):
+        raise TypeError('not comparable')
+
+    def __hash__(self):
+        raise TypeError('not hashable')
+
+
 EXC = {
+    'Unhashable': UnhashableExc, 'EqRaises': EqRaisesExc,
     'ValueError': ValueError, 'KeyError': KeyError,
     'AssertionError': AssertionError, 'User': UserExc, 'BadStr': BadStrExc,
     'Deep': DeepExc, 'NIE': NotImplementedError, 'Skip': unittest.SkipTest,
@@ -149,6 +168,10 @@ def mkexc(name, msg):
     if name == 'SelfCause':
         e = ValueError(msg)
         e.__cause__ = e
+        return e
+    if name == 'UnhashableCause':  # raise X from <an unhashable exception>
+        e = ValueError(msg)
+        e.__cause__ = UnhashableExc('the cause')
         return e
     if name == 'Group':
         return ExceptionGroup(msg, [ValueError('g1'), KeyError('g2')])
@@ -607,6 +630,16 @@ class VTCase(unittest.TestCase):
                 with self.subTest(i=0):
                     emit('t', vt['n'], 'sub', 0, 'f')
                     self.fail('subfail under redirect_stdout')
+            return
+        if s in ('close_out', 'close_fail'):
+            # a test that closes its standard streams (a CLI under test calling
+            # sys.stdout.close(), a "with sys.stdout:" block).  Only the runner's
+            # capture buffers of --buffer are closed, never a real stream.
+            for st in (sys.stdout, sys.stderr):
+                if hasattr(st, 'getvalue'):
+                    st.close()
+            if s == 'close_fail':
+                self.fail('boom %s' % vt['n'])
             return
         if s == 'leave_replaced':
             # a test that replaces sys.stdout and never puts it back
